@@ -16,7 +16,7 @@ ENGINE = {'name': 'send',
          'peer is checked (one header + the client\'s stream each); 11 address pairs (TCP4, TCP4 edge values, IPv4-mapped, TCP6 with '
          'zero runs, mixed families, UDP4/6, unix, TCP/UDP) x {no received header, one of 8 received headers (v1 TCP4/TCP6/UNKNOWN, v2 '
          'TCP4/UDP4/TCP6/LOCAL/UNSPEC) parsed by the real proxy_protocol handler in front} x payload 0/1/17/300/3000 bytes x {whole, split at a '
-         'random position, header|payload}, + N random TCP4/TCP6 address pairs; non-trivial = a header is sent; distinct = distinct Coq terms',
+         'random position, header|payload}, + N random TCP4/TCP6 address pairs; + one slow client per version whose second segment follows 3.3 s after the first (runs beside the other cases); non-trivial = a header is sent; distinct = distinct Coq terms',
  'trusted_base': ['loopback TCP delivers the upstream bytes in order; the strict header parser written in the engine from the specification'],
  'modelled': ['modules/l4proxy/proxy.go: dialPeers (GetConn, HeaderV1/V2.FromConn(outgoing=false), WriteTo before relaying), proxy (downstream bytes relayed in order)',
               'not modelled: load balancing/retries (C10/C11), TLS upstreams, half-close ordering (C03)'],
